@@ -91,6 +91,7 @@ def tasks(tier):
             out.append('refl:%s' % s)
         out.append('eq:%s' % s)
     out.append('tie:ducowicz')
+    out.append('ducowicz_bounded')
     out.append('dispatch')
     for s in ITERATIVE:
         out.append('gal:%s' % s)
@@ -481,6 +482,8 @@ def run_task(task, ctx):
                       replay=replay_floor,
                       info='absolute floor smallp=1e-25 on p*')
         return
+    if kind == 'ducowicz_bounded':
+        return task_ducowicz_bounded(ctx, repo, m)
     if kind == 'eq':
         return task_eq(ctx, repo, m, parts[1])
     if kind == 'tie':
@@ -812,3 +815,60 @@ def task_vac(ctx, repo, m):
                             expected='return code 1 (vacuum)')
         return dict(reproduced=False)
     ctx.prove('exact.vacuum', obs, replay=rp)
+
+
+# ---------------------------------------------- bounded: ducowicz reflection
+def task_ducowicz_bounded(ctx, repo, m):
+    """BOUNDED stand-in (never counted as proved).  Reflection symmetry of
+    every solver on a grid of states -- the deciding check for the clauses
+    that are not verified deductively (`ducowicz` away from ties, `hllc` at
+    contact speed 0) and a safety net under the relational proofs of the
+    others.  Grid: densities and pressures in {0.01, 0.1, 1, 10}, velocities
+    in {-2, -1, -0.3, 0, 0.3, 1, 2}, gamma in {1.4, 5/3, 2.5} (ducowicz: all
+    37632 states; the other solvers: gamma = 1.4 only, 12544 states); p*
+    equal and u* negated up to 1e-9 of the state's own scales; iterative
+    solvers are compared when both runs report success."""
+    import itertools
+    mod = native.load(MOD)
+    R = [0.01, 0.1, 1.0, 10.0]
+    U = [-2.0, -1.0, -0.3, 0.0, 0.3, 1.0, 2.0]
+    for name in SOLVERS:
+        f = getattr(mod, name)
+        gammas = (1.4, 5.0 / 3, 2.5) if name == 'ducowicz' else (1.4,)
+        bad, n = None, 0
+        for g in gammas:
+            for rl, rr, pl, pr in itertools.product(R, R, R, R):
+                for ul, ur in itertools.product(U, U):
+                    a, b = [0.0, 0.0], [0.0, 0.0]
+                    try:
+                        c1 = f(rl, rr, pl, pr, ul, ur, g, 40, 1e-10, a)
+                        c2 = f(rr, rl, pr, pl, -ur, -ul, g, 40, 1e-10, b)
+                    except (TypeError, ValueError, ZeroDivisionError,
+                            OverflowError):
+                        continue        # undefined arithmetic: not claimed
+                    n += 1
+                    if c1 != c2:
+                        if bad is None and name not in ITERATIVE:
+                            bad = dict(rhol=rl, rhor=rr, pl=pl, pr=pr, ul=ul,
+                                       ur=ur, gamma=g, codes=[c1, c2])
+                        continue
+                    if c1 != 0:
+                        continue
+                    if a[0] != a[0] or b[0] != b[0]:
+                        continue        # nan: 'when the result is finite'
+                    sc = max(abs(a[0]), abs(b[0]), pl, pr)
+                    su = 1 + abs(ul) + abs(ur) + (g * pl / rl) ** 0.5 + \
+                        (g * pr / rr) ** 0.5
+                    tol = 1e-6 if name in ITERATIVE else 1e-9
+                    if bad is None and (abs(a[0] - b[0]) > tol * sc or
+                                        abs(a[1] + b[1]) > tol * su):
+                        bad = dict(rhol=rl, rhor=rr, pl=pl, pr=pr, ul=ul,
+                                   ur=ur, gamma=g, result=a, mirrored=b)
+        ctx.bounded_check('%s.reflection_grid' % name,
+                          '%d grid states (see docstring of the task), ties '
+                          'excluded by the tolerance' % n, n, bad is None,
+                          bad or 'ok')
+    ctx.function(m, m.functions['ducowicz'], 'ducowicz (bounded reflection)')
+    ctx.prove('reflection_grid.bounded_check_ran', [Obligation(
+        'ran', [], z3.BoolVal(True), m.path)],
+        info='bounded, not proved: see coverage.bounded')
